@@ -78,6 +78,8 @@ def run_case(ctx, rng, focus, forced=None):
         for p in paths:
             r = rng.random()
             kinds[(c, p)] = "exec" if plain else "undef" if r < 0.1 else "noexec" if r < 0.13 else "noexec_link" if r < 0.16 else "noexec_format" if r < 0.18 else "noexec_interp" if r < 0.2 else "exec"
+    if forced and forced.get("all_exec"):
+        for k_ in kinds: kinds[k_] = "exec"          # a directed case: nothing else in the run is undefined or unexecutable
     if forced and forced.get("kinds"):
         for k, v in forced["kinds"].items(): kinds[tuple(k.split("|", 1))] = v
     rr = runscen.RunRepo(ctx, cfg, kinds=kinds, commands=CMDS)
@@ -400,7 +402,7 @@ def run(ctx, scale, focus):
         for rep, fl in enumerate(["exec", "noexec"] * (1 if ctx.quick() else 6)):
             r0 = random.Random(ctx.rng.getrandbits(32)); cs = r0.getrandbits(32)
             fcfg = {"targets": [{"path": "f%d" % i} for i in range(3)], "sequences": SEQS}
-            run_case(ctx, random.Random(cs), focus, forced={"case_seed": cs, "cfg": fcfg, "mode": "all", "named": [], "fou": False, "fail_at": [], "only_cmds": ["build", "test"], "flip": fl})
+            run_case(ctx, random.Random(cs), focus, forced={"case_seed": cs, "cfg": fcfg, "mode": "all", "named": [], "fou": False, "fail_at": [], "only_cmds": ["build", "test"], "flip": fl, "all_exec": True})
     if focus == "C05":
         # run with an explicit change interval: it must execute what analyze reports for the same --begin / --end
         for rep in range(3 if ctx.quick() else 12):
@@ -420,6 +422,7 @@ def run(ctx, scale, focus):
         for rep in range(2 if ctx.quick() else 10):
             r0 = random.Random(ctx.rng.getrandbits(32)); cs = r0.getrandbits(32)
             pcfg = {"targets": [{"path": "core"}, {"path": "core-utils", "uses": ["core"]}, {"path": "t1"}, {"path": "t12", "uses": ["t1/src"]}, {"path": "t1/inner"},
+                                {"path": "libs"}, {"path": "libs/core"}, {"path": "svc", "uses": ["libs/core/src"]},      # a used path inside a target nested in another one
                                 {"path": "d\u00e9p"}, {"path": "app", "uses": ["d\u00e9p/src"]}, {"path": "\u65e5\u672c/lib"}, {"path": "tool", "uses": ["\u65e5\u672c/lib/x.rs"]}], "sequences": SEQS}
             r0.shuffle(pcfg["targets"])
             run_case(ctx, random.Random(cs), focus, forced={"case_seed": cs, "cfg": pcfg, "mode": "all", "named": [], "timing": "deps_slower", "plain": True})
